@@ -264,7 +264,12 @@ class Tree:
             txs = self.random_txs(parent_hash, self.rng.randrange(0, 3) if n_tx is None else n_tx)
         ts = parent.timestamp + (dt if dt is not None else self.rng.randrange(1, 200))
         miner_pk = self.keys.pk(self.rng.randrange(0, len(self.keys.pks)) if miner is None else miner)
-        b = mine(self.cs, parent_hash, txs, miner_pk, ts)
+        # coinbase data of any legal length: mostly short, with the lengths at which its encoding is as long as other
+        # kinds of signature field (65 bytes = 6 + 59) and the limits over-represented
+        r_ = self.rng.random()
+        n_data = 0 if r_ < 0.35 else self.rng.choice([1, 58, 59, 60, 199, 200]) if r_ < 0.6 else self.rng.randrange(0, 201)
+        data = bytes(self.rng.getrandbits(8) for _ in range(n_data))
+        b = mine(self.cs, parent_hash, txs, miner_pk, ts, data=data)
         try:
             self.cs = self.cs.add_block(b, ts + 10)
         except Exception as e:
